@@ -71,7 +71,7 @@ def ping_untouched(self: Ref['mqtt.client.pubsubs.MQTTProtocol']) -> bool:
 @spec
 def core(self: Ref['mqtt.client.pubsubs.MQTTProtocol']) -> bool:
     return (is_obj(self.addr) and wf_proto(self) and distinct_containers(self) and inv_W(self) and inv_R(self) and inv_S(self)
-            and inv_U(self) and inv_X(self) and inv_Q(self))
+            and inv_U(self) and inv_X(self) and inv_Q(self) and conn_timers_ok(self))
 
 
 @contract('mqtt.client.pubsubs.MQTTProtocol.doConnectionLost', props=['C11', 'C12', 'C13', 'C07', 'C05', 'C16'], deadline=1500)
